@@ -126,7 +126,7 @@ func TestVerifLB(t *testing.T) {
 				last, since = c, time.Now()
 				continue
 			}
-			if time.Since(since) > 60*time.Second {
+			if time.Since(since) > time.Duration(vfEnvInt("VERIF_HANG_S", 300))*time.Second {
 				vfEmit(map[string]interface{}{"kind": "hang", "engine": "lbfuzz", "case": c, "case_seed": atomic.LoadUint64(&curSeed)})
 				os.Exit(7)
 			}
